@@ -1,7 +1,7 @@
 (* C05  A corrupted frame is rejected or decoded as what it actually says — engine half, for every input. *)
 From Coq Require Import ZArith List Bool.
 Require Import PyIR.Base.Result PyIR.IW.IW PyIR.Engine.Match PyIR.Engine.Render PyIR.Engine.Parse
-               PyIR.Engine.ParseProps PyIR.Engine.RoundTripH PyIR.Engine.Tolerance PyIR.Engine.ParseM PyIR.Engine.ParseMProps PyIR.Engine.ParseB.
+               PyIR.Engine.ParseProps PyIR.Engine.RoundTripH PyIR.Engine.Tolerance PyIR.Engine.ParseM PyIR.Engine.ParseMProps PyIR.Engine.ParseB PyIR.Engine.ParseHT PyIR.Engine.ParseHTProps.
 Import ListNotations.
 Open Scope Z_scope.
 
@@ -35,6 +35,14 @@ Theorem C05_parse_sound_serial : forall tol mark space ds out, data_B tol mark s
     out = flat_map (fun tk => repeat (fst tk) (Z.to_nat (snd tk))) runs.
 Proof. exact data_B_sound. Qed.
 
+(* Halfbit tables with (mark, space) middle tuples: whatever is received, every duration the data loop writes into the normalised code
+   is an entry of the symbol table or of a declared middle tuple - the decoded code never carries a received duration *)
+Theorem C05_tuple_middle_cleaned_code_is_nominal : forall tol t mids cl0 ds fin,
+  data_loopT tol t {| ht_pairs := []; ht_clean := cl0; ht_mids := mids |} ds = Ok fin ->
+  exists added, ht_clean fin = added ++ cl0 /\ Forall (nominal t mids) added.
+Proof. exact data_loopT_nominal. Qed.
+
 Print Assumptions C05_parse_sound.
+Print Assumptions C05_tuple_middle_cleaned_code_is_nominal.
 Print Assumptions C05_parse_sound_serial.
 Print Assumptions C05_parse_sound_manchester.
